@@ -221,8 +221,7 @@ def configs(tier, seed):
         cfgs.append(Config('convert %s -> %s -> %s' % (a, b, c_), h_convert(a, b, c_), 600))
     cfgs.append(Config('refuse unsupported units', h_refuse, 600))
     pairs = [('mJy', 'erg/cm2/s'), ('erg/cm2/s', 'mJy'), ('erg/s', 'Jy'), ('W/m2', 'erg/s'), ('Jy', 'W/m2'), ('mJy', 'mJy')]
-    if tier != 'quick':
-        pairs = [(a, b) for a in NAMES for b in NAMES]
+    pairs = [(a, b) for a in NAMES for b in NAMES]        # all 25 stored/requested pairs (each is a fraction of a second)
     for (a, b) in pairs:
         cfgs.append(Config('read stored=%s requested=%s' % (a, b), h_read(a, b), 900))
     return cfgs
